@@ -206,3 +206,80 @@ theorem encodeCanon_map_perm (m₁ m₂ : List (Bytes × CVal)) (hp : m₁.Perm 
   unfold encodeCanon; rw [canon_map_perm m₁ m₂ hp hnd]
 
 end Cbor
+
+namespace Cbor
+variable {α : Type}
+
+theorem insertKV_of_le (kv : Bytes × α) (m : List (Bytes × α)) (h : ∀ y ∈ m, keyLe kv.1 y.1 = true) :
+    insertKV kv m = kv :: m := by
+  cases m with
+  | nil => rfl
+  | cons x xs =>
+    have := h x (by simp)
+    simp [insertKV, this]
+
+/-- a sorted list is its own sort -/
+theorem sortKV_of_sorted : ∀ m : List (Bytes × α), m.Pairwise eLe → sortKV m = m := by
+  intro m
+  induction m with
+  | nil => intro _; rfl
+  | cons x xs ih =>
+    intro hs
+    have : sortKV (x :: xs) = insertKV x (sortKV xs) := rfl
+    rw [this, ih hs.tail]
+    exact insertKV_of_le x xs (fun y hy => List.rel_of_pairwise_cons hs hy)
+
+theorem sortKV_idem (m : List (Bytes × α)) : sortKV (sortKV m) = sortKV m :=
+  sortKV_of_sorted _ (sortKV_sorted m)
+
+theorem insertKV_mapVal {β : Type} (f : α → β) (kv : Bytes × α) : ∀ m : List (Bytes × α),
+    insertKV (kv.1, f kv.2) (m.map fun e => (e.1, f e.2)) = (insertKV kv m).map fun e => (e.1, f e.2) := by
+  intro m
+  induction m with
+  | nil => rfl
+  | cons x xs ih =>
+    simp only [List.map_cons, insertKV]
+    split
+    · rfl
+    · simp only [List.map_cons]; rw [ih]
+
+theorem sortKV_mapVal {β : Type} (f : α → β) : ∀ m : List (Bytes × α),
+    sortKV (m.map fun e => (e.1, f e.2)) = (sortKV m).map fun e => (e.1, f e.2) := by
+  intro m
+  induction m with
+  | nil => rfl
+  | cons x xs ih =>
+    have e1 : sortKV (x :: xs) = insertKV x (sortKV xs) := rfl
+    have e2 : sortKV ((x :: xs).map fun e => (e.1, f e.2)) = insertKV (x.1, f x.2) (sortKV (xs.map fun e => (e.1, f e.2))) := rfl
+    rw [e1, e2, ih, insertKV_mapVal]
+
+mutual
+theorem canon_idem : ∀ v : CVal, canon (canon v) = canon v
+  | .null => rfl
+  | .bool _ => rfl
+  | .int _ => rfl
+  | .text _ => rfl
+  | .bytes _ => rfl
+  | .link _ => rfl
+  | .list l => by simp only [canon]; rw [canonList_idem l]
+  | .map m => by
+    simp only [canon]
+    congr 1
+    rw [canonMap_eq_map (sortKV (canonMap m)), ← sortKV_mapVal canon (canonMap m)]
+    have : (canonMap m).map (fun e => (e.1, canon e.2)) = canonMap m := by
+      rw [← canonMap_eq_map, canonMap_idem m]
+    rw [this, sortKV_idem]
+theorem canonList_idem : ∀ l : List CVal, canonList (canonList l) = canonList l
+  | [] => rfl
+  | x :: xs => by simp only [canonList]; rw [canon_idem x, canonList_idem xs]
+theorem canonMap_idem : ∀ m : List (Bytes × CVal), canonMap (canonMap m) = canonMap m
+  | [] => rfl
+  | (a, v) :: xs => by simp only [canonMap]; rw [canon_idem v, canonMap_idem xs]
+end
+
+/-- the canonical form is a fixed point: decoding a block the encoder wrote and encoding it again
+reproduces its bytes -/
+theorem encodeCanon_canon (v : CVal) : encodeCanon (canon v) = encodeCanon v := by
+  unfold encodeCanon; rw [canon_idem]
+
+end Cbor
